@@ -58,6 +58,15 @@ func sanitizeSelectionSet(ctx *PlanningContext, selectionSet ast.SelectionSet, i
 		}
 	}
 
+	// helper fields which client selected by himself on this level should not be scrubbed,
+	// even if they were also added to some nested fragment
+	for _, s := range selectionSet {
+		if f, ok := s.(*ast.Field); ok && f.Alias == f.Name && len(f.Directives) == 0 &&
+			(f.Name == common.IDFieldName || f.Name == common.TypenameFieldName) {
+			scrubFields.Unset(insertionPoint, f.Name)
+		}
+	}
+
 	return result, scrubFields
 }
 
